@@ -3,6 +3,7 @@ from harness import lib
 
 DRIVERS = [
     ("cal_driver", "cal_model.ml", "cal_driver.ml"),
+    ("graph_driver", "graph_model.ml", "graph_driver.ml"),
 ]
 
 
